@@ -70,6 +70,7 @@ def vary(cases):
     for i, c in enumerate(cases):
         c = dict(c)
         c["bkl"] = (i // 7) % 5          # 1..4: a forced Brandes-Koepf layout although the positioner is another one
+        c["oo"] = (i // 3) % 2           # the option list in reverse order
         c["p5"] = _VARY_P5[i % 4]
         c["p4"] = _VARY_P4[(i // 4) % 4]
         c["virt"] = (i // 16) % 2
@@ -338,6 +339,7 @@ def c01_cases(tier, rng):
         if NAME_STYLES[style]:
             c["names"] = NAME_STYLES[style](n)
         c["seed"] = rng.randrange(1 << 30)
+        c["oo"] = rng.choice([0, 0, 1])
         c["budgetms"] = budget_ms(n, len(e), c["p4"])
         return c
     inputs = [(n, e) for n, e, _ in K.family(fam_E(tier))]
